@@ -71,6 +71,19 @@ claim("C18",
       "typestate / must-pass-through analysis on the clang CFG plus who-may-close rule",
       "DESIGN.md section 3, C18")
 
+claim("C07",
+      "Structural part only: (K1) whole-compiler rule that no bounded array is indexed by a plain-char value without a "
+      "range proof; (K2) single-writer discipline and increment-before-message for the error counter; (K3) data dependence "
+      "of the exit status on the error counter along the return chain, monotone per-invocation total, and a who-may-call "
+      "rule for success exits; (K4) the status returned by main cannot wrap to 0. These are necessary conditions of 'no "
+      "fault on any byte sequence' and 'status non-zero exactly when an error was printed'; termination, parser recovery "
+      "and every other kind of memory fault are not decided.",
+      "Trusted: clang 14 AST/CFG; the guard idioms recognised by K1 (||/&&/if conditions, assert and early-exit guards); "
+      "frozen lists of allowed success exits and constant returns (rules/frozen/c07_*.json), one reason each.",
+      "taint-style index-origin lint with structural range-proof, single-writer and return-value provenance rules over the "
+      "clang AST/CFG",
+      "DESIGN.md section 3, C07")
+
 PENDING_REASON = "check designed in DESIGN.md but not yet built in this tree; not claimed until it runs"
 
 
